@@ -40,7 +40,8 @@ RULE = ("a runner configuration = 0-3 unpacked parameters of lengths 1-5 (lists 
         "user code and are simulated again; reconfiguration also goes through "
         "params[name] = values; confidence-interval lookups are compared with "
         "the matching combinations. "
-        "Half of the file-backed histories use names relative to a fresh working directory (partial-results folder not yet existing, given or default). ")
+        "Half of the file-backed histories use names relative to a fresh working directory (partial-results folder not yet existing, given or default). "
+        "Grids read from a config file with a validation spec (unpacked parameters of length 1 included), runners that compute their grid in _on_simulate_start, and the parallel entry point driven through an in-process stand-in for the ipyparallel view (blocking / deferred collection, wait_parallel_simulation() called repeatedly, aborted first run). ")
 ASSUMPTIONS = ["the do-while behaviour (first repetition unconditional) is the "
                "documented one", "serial simulate() only (ipyparallel absent)"]
 
@@ -107,7 +108,9 @@ class ProbeRunner(SimulationRunner):
         for name, val in spec.fixed.items():
             self.params.add(name, val)
         for name, val in spec.unpacked.items():
-            self.params.add(name, val)
+            # late grid: only a placeholder now, the real values are computed in
+            # the _on_simulate_start hook (from min/max/step in a real simulator)
+            self.params.add(name, list(val)[:1] if getattr(spec, "late_grid", False) else val)
             self.params.set_unpack_parameter(name)
         self.trace = []
         self.kg_log = []
@@ -146,6 +149,12 @@ class ProbeRunner(SimulationRunner):
         ans = keep_going_decision(self.spec, cnt, ratio, current_rep)
         self.kg_log.append((current_params.unpack_index, current_rep, cnt, ans))
         return ans
+
+    def _on_simulate_start(self):
+        if getattr(self.spec, "late_grid", False):
+            for name, val in self.spec.unpacked.items():
+                self.params.add(name, val)
+                self.params.set_unpack_parameter(name)
 
     def _on_simulate_current_params_start(self, current_params):
         # a fresh attempt counter per variation and per simulate() call
@@ -223,6 +232,7 @@ def gen_spec(rng):
     s.skip_p = float(rng.uniform(0.1, 0.4))
     s.first_skips = int(rng.integers(1, 4))
     s.salt = int(rng.integers(0, 10 ** 6))
+    s.late_grid = bool(s.unpacked) and rng.random() < 0.15
     return s
 
 
@@ -264,6 +274,7 @@ def reconfigure(rng, s, runner):
 def spec_tag(s):
     return {"unpacked": {k: np.asarray(v).tolist() for k, v in s.unpacked.items()},
             "fixed": {k: repr(v) for k, v in s.fixed.items()}, "rep_max": s.rep_max,
+            "grid_computed_in_on_simulate_start": getattr(s, "late_grid", False),
             "predicate": [s.pred_kind, s.pred_arg],
             "skip": [s.skip_kind, s.skip_p if s.skip_kind == "random" else
                      (s.first_skips if s.skip_kind == "first" else None)]}
@@ -277,14 +288,14 @@ def expected_variations(s):
     return [(i, tuple(repr(v) for v in c)) for i, c in enumerate(combos)]
 
 
-def check_run(ctx, runner, s, tag, label, uid0):
+def check_run(ctx, runner, s, tag, label, uid0, simulate=None):
     variations = expected_variations(s)
     want_trace, want, uid_end = model(s, variations, uid0)
     ntr = len(runner.trace)
     runner_trace = list(runner.trace)
     try:
         with core.silence_stdout():
-            runner.simulate()
+            (simulate or runner.simulate)()
     except SkipThisOne as e:
         ctx.ev("call-trace", False, cls="SkipThisOne-propagated:first-attempt"
                if s.skip_kind == "first" else "SkipThisOne-propagated",
@@ -398,7 +409,7 @@ def case_runner(ctx, rng, idx):
         okc, n_with = ctx.call("call-trace", add_and_remove, cls="params.remove", detail=tag)
         if not okc:
             return
-        nvar0 = len(expected_variations(s))
+        nvar0 = len(expected_variations(s)) if not getattr(s, "late_grid", False) else 1
         ctx.ev("call-trace", n_with == 3 * nvar0 and
                runner.params.get_num_unpacked_variations() == nvar0 and
                "temp" not in runner.params.unpacked_parameters, cls="params.remove:grid",
@@ -768,11 +779,209 @@ def classify(w):
     return None
 
 
+class ConfigRunner(SimulationRunner):
+    """A runner whose grid comes from a configuration file (the way the apps/
+    simulators are normally configured)."""
+
+    def __init__(self, config_file, spec_lines, names, rep_max):
+        super().__init__(default_config_file=config_file, config_spec=spec_lines,
+                         read_command_line_args=False)
+        self.update_progress_function_style = None
+        self.rep_max = rep_max
+        self.names = names
+        self.calls = []
+
+    def _run_simulation(self, current_params):
+        vals = tuple(current_params[n] for n in self.names)
+        self.calls.append((current_params.unpack_index, vals, current_params["scale"]))
+        sr = SimulationResults()
+        sr.add_new_result("cnt", Result.SUMTYPE, 1)
+        sr.add_new_result("tag", Result.SUMTYPE, float(np.sum([np.sum(v) for v in vals])))
+        return sr
+
+
+def case_config(ctx, rng, idx):
+    """The grid is read from a config file with a validation spec; parameters
+    named in its `unpacked_parameters` option are unpacked -- also those with
+    a single value."""
+    import itertools
+    import shutil
+    wd = os.path.join(core.workdir(), "config_%d" % idx)
+    shutil.rmtree(wd, ignore_errors=True)
+    os.makedirs(wd)
+    names_all = ["zeta", "alpha", "mid"]
+    nun = int(rng.integers(1, 4))
+    names = sorted(names_all[:nun])
+    grid = {}
+    for nm in names_all:
+        n = 1 if rng.random() < 0.35 else int(rng.integers(2, 5))
+        vals = rng.choice(np.arange(1, 30), size=n, replace=False)
+        if nm == "mid":
+            grid[nm] = [int(v) for v in vals]                   # integer_numpy_array
+        else:
+            grid[nm] = [float(v) / 2.0 for v in vals]            # real_numpy_array
+    scale = float(rng.integers(1, 9)) / 4.0
+    rep_max = int(rng.choice([1, 2, 3]))
+    spec_lines = ["zeta=real_numpy_array(default=15)", "alpha=real_numpy_array(default=4)",
+                  "mid=integer_numpy_array(default=4)", "scale=float(default=1.0)",
+                  "unpacked_parameters=string_list(default=list('zeta'))"]
+    cfg = "".join("%s=%s\n" % (nm, ",".join(repr(v) for v in grid[nm])) for nm in names_all)
+    cfg += "scale=%r\nunpacked_parameters=%s\n" % (scale, ",".join(names) + ("," if nun == 1 else ""))
+    path = os.path.join(wd, "config.txt")
+    with open(path, "w") as f:
+        f.write(cfg)
+    tag = {"config": cfg, "unpacked": names, "rep_max": rep_max}
+    cwd0 = os.getcwd()
+    os.chdir(wd)
+    try:
+        okc, runner = ctx.call("call-trace", ConfigRunner, path, spec_lines, names, rep_max,
+                               cls="config:constructor", detail=tag)
+        if not okc:
+            return
+        ctx.ev("call-trace", sorted(runner.params.unpacked_parameters) == names,
+               cls="config:unpacked-parameters", detail={**tag, "got": runner.params.unpacked_parameters})
+        try:
+            with core.silence_stdout():
+                runner.simulate()
+        except Exception as e:              # noqa: BLE001
+            import traceback
+            ctx.ev("call-trace", False, cls="config:simulate-raised:" + type(e).__name__,
+                   detail={**tag, "tb": traceback.format_exc(limit=-4)})
+            return
+    finally:
+        os.chdir(cwd0)
+        shutil.rmtree(wd, ignore_errors=True)
+    combos = list(itertools.product(*[grid[nm] for nm in names]))
+    want = [(vi, tuple(float(x) for x in c)) for vi, c in enumerate(combos) for _ in range(rep_max)]
+    got = []
+    scalar_ok = True
+    for vi, vals, sc in runner.calls:
+        scalar_ok = scalar_ok and all(np.ndim(v) == 0 for v in vals) and float(sc) == scale
+        got.append((vi, tuple(float(np.sum(v)) for v in vals)))
+    ctx.ev("call-trace", scalar_ok, cls="config:iteration-receives-the-value-of-the-combination",
+           detail={**tag, "first_call": repr(runner.calls[:1])})
+    ctx.ev("call-trace", got == want, cls="config:order-or-count",
+           detail={**tag, "got_len": len(got), "want_len": len(want), "got_head": got[:4],
+                   "want_head": want[:4]})
+    ctx.ev("repetition-counts", list(runner.runned_reps) == [rep_max] * len(combos),
+           cls="config:runned_reps", detail={**tag, "got": list(runner.runned_reps)})
+    res = runner.results
+    okr = len(res["cnt"]) == len(combos)
+    ctx.ev("stored-results", okr and all(res["cnt"][i].get_result() == rep_max and
+                                         abs(res["tag"][i].get_result() - rep_max * sum(combos[i]))
+                                         <= 1e-9 for i in range(len(combos))),
+           cls="config:merge-of-the-repetitions", detail=tag)
+    # lookup by a fixed value of one unpacked parameter
+    if okr and len(names) >= 1:
+        nm = names[int(rng.integers(0, len(names)))]
+        v = grid[nm][int(rng.integers(0, len(grid[nm])))]
+        wantv = [rep_max for c in combos if c[names.index(nm)] == v]
+        okc, vals = ctx.call("lookup-by-fixed-values", res.get_result_values_list, "cnt",
+                             {nm: v}, cls="config:raised", detail={**tag, "fixed": {nm: v}})
+        if okc:
+            ctx.ev("lookup-by-fixed-values", list(vals) == wantv, cls="config:get_result_values_list",
+                   detail={**tag, "fixed": {nm: v}, "got": list(vals), "want": wantv})
+    ctx.sig("config", tuple(len(grid[nm]) for nm in names), rep_max)
+    ctx.sample("config", tag)
+
+
+class _AsyncOutcome:
+    """What an ipyparallel view hands back: errors of the engines surface when
+    the results are collected."""
+
+    def __init__(self, outcomes, error):
+        self.outcomes, self.error = outcomes, error
+
+    def wait(self, timeout=None):
+        return None
+
+    def get(self, timeout=None):
+        if self.error is not None:
+            raise self.error
+        return list(self.outcomes)
+
+
+class InProcessView:
+    """Stand-in for an ipyparallel view (ipyparallel is not installed here):
+    `map(func, *sequences, block=False)` runs the tasks one after the other in
+    this process; the first error stops the rest and is reported by get()."""
+
+    def map(self, func, *sequences, **kwargs):
+        outcomes, error = [], None
+        for args in zip(*sequences):
+            try:
+                outcomes.append(func(*args))
+            except SkipThisOne:
+                raise
+            except Exception as e:            # noqa: BLE001 - reported at get()
+                error = e
+                break
+        return _AsyncOutcome(outcomes, error)
+
+
+def case_parallel(ctx, rng, idx):
+    """The parallel entry point (simulate_in_parallel / wait_parallel_simulation)
+    driven through an in-process stand-in for the ipyparallel view: the same
+    law as the serial path -- every combination, exactly the requested
+    repetitions, nothing carried over between runs, results collected once
+    however often wait_parallel_simulation() is called."""
+    s = gen_spec(rng)
+    s.late_grid = False
+    tag = {**spec_tag(s), "entry": "simulate_in_parallel(in-process view)"}
+    okc, runner = ctx.call("call-trace", lambda: ProbeRunner(s), cls="constructor", detail=tag)
+    if not okc:
+        return
+    view = InProcessView()
+
+    def blocking():
+        runner.simulate_in_parallel(view)
+
+    def deferred():
+        runner.simulate_in_parallel(view, wait=False)
+        runner.wait_parallel_simulation()
+        for _ in range(int(rng.integers(0, 3))):
+            runner.wait_parallel_simulation()      # documented as harmless
+    if idx % 3 == 1:
+        # the first run dies in user code; the error surfaces when the results
+        # are collected; the user fixes the problem and starts again
+        want_trace0, _, _ = model(s, expected_variations(s), 0)
+        runner.abort_at = int(rng.integers(0, len(want_trace0)))
+        try:
+            with core.silence_stdout():
+                (blocking if rng.random() < 0.5 else deferred)()
+            ctx.tally("abort-not-reached")
+        except RuntimeError:
+            ctx.tally("aborted-first-parallel-run")
+        except SkipThisOne:
+            pass
+        runner.abort_at = None
+        tag = {**tag, "first-run-aborted-after-calls": len(runner.trace)}
+    uid = check_run(ctx, runner, s, tag, "parallel:first", runner.next_uid,
+                    simulate=blocking if idx % 2 else deferred)
+    if uid is None:
+        return
+    check_lookup(ctx, runner, s, tag, rng)
+    uid = check_run(ctx, runner, s, tag, "parallel:second", uid,
+                    simulate=deferred if idx % 2 else blocking)
+    if uid is not None and idx % 4 == 0:
+        uid = check_run(ctx, runner, s, tag, "serial-after-parallel", uid)
+    if uid is not None and idx % 2 == 0:
+        s2 = reconfigure(rng, s, runner)
+        tag2 = {**spec_tag(s2), "before-reconfiguration": tag,
+                "entry": "simulate_in_parallel(in-process view)"}
+        check_run(ctx, runner, s2, tag2, "parallel:reconfigured", uid, simulate=blocking)
+    grid = tuple(len(v) for _, v in sorted(s.unpacked.items()))
+    ctx.sig("parallel", grid, s.rep_max, s.pred_kind, s.skip_kind)
+    ctx.sample("parallel", {**tag, "calls": len(runner.trace)})
+
+
 GENS = {
     "runner": Gen(case_runner, 2500, 300000),
     "single": Gen(case_single, 600, 80000),
     "app": Gen(case_app, 90, 9000),
     "files": Gen(case_files, 250, 25000),
+    "config": Gen(case_config, 120, 12000),
+    "parallel": Gen(case_parallel, 250, 30000),
 }
 MIN_EVALS = {"call-trace": 1500, "stored-results": 5000, "repetition-counts": 1500,
              "skip-counts": 3000, "lookup-by-fixed-values": 2000, "single-variation": 500,
